@@ -519,10 +519,14 @@ func (x *Exec) run(st *State, b *ssa.BasicBlock, idx int, k retK) {
 			st2 := st.clone()
 			st.assume(ct)
 			st.top().prev = b
-			x.run(st, t, 0, k)
+			if !st.infeasible {
+				x.run(st, t, 0, k)
+			}
 			st2.assume("(not " + ct + ")")
 			st2.top().prev = b
-			x.run(st2, f, 0, k)
+			if !st2.infeasible {
+				x.run(st2, f, 0, k)
+			}
 			return
 		case *ssa.Jump:
 			fr.prev = b
@@ -602,7 +606,7 @@ func (x *Exec) debugRef(st *State, d *ssa.DebugRef) {
 	if obj == nil {
 		return
 	}
-	if _, isVar := obj.(*types.Var); !isVar {
+	if tv, isVar := obj.(*types.Var); !isVar || tv.IsField() {
 		return
 	}
 	if cur, ok := fr.vars[obj.Name()]; ok && cur.S == "@addr" && !d.IsAddr {
@@ -649,6 +653,11 @@ func (x *Exec) step(st *State, in ssa.Instruction) {
 			if si := x.isHeapStruct(et); si != nil {
 				r := x.allocHeapObj(st, si)
 				set(in, Val{S: "Int", T: r})
+				switch in.Comment {
+				case "", "complit", "varargs", "new":
+				default:
+					fr.vars[in.Comment] = Val{S: "Int", T: r, GT: in.Type()}
+				}
 				return
 			}
 		}
@@ -788,6 +797,11 @@ func (x *Exec) step(st *State, in ssa.Instruction) {
 	case *ssa.ChangeInterface:
 		v := x.valOf(st, in.X)
 		ts := U.sortOf(in.Type())
+		if ts == "Any" && v.S != "Any" {
+			inner := v
+			set(in, Val{S: "Any", T: st.fresh("any", "Any"), GT: in.Type(), Inner: &inner})
+			return
+		}
 		if v.S != ts && !(v.A != nil && v.T == "") {
 			limitf("ChangeInterface across sorts %s -> %s", v.S, ts)
 		}
